@@ -3,7 +3,7 @@
    All statements hold over every commutative ring (hence over the rationals, which contain every
    float64 value) and for matrices of every size. *)
 From Coq Require Import ZArith List Bool QArith Qcanon Lia.
-From QV Require Import Base.Alg Base.Sums Base.Mat Base.Taylor Model.C17 Proofs.C17.
+From QV Require Import Base.Alg Base.Sums Base.Mat Base.Taylor Model.C17 Model.C17axis Proofs.C17 Proofs.C17gen.
 Import ListNotations.
 
 (* any history of set_rate calls (accepted or refused, any indices incl. negative and out of range)
@@ -96,3 +96,37 @@ Proof.
   - split; [intros x y Hx Hy; unfold Qcmult; rewrite Hred; now apply Qmult_le_0_compat|].
     split; intros x; unfold Qcplus; rewrite ?Hred; destruct x as [[a b] Hc]; cbn [this]; unfold Qle, Qplus; cbn; nia.
 Qed.
+
+(* ---------------- glue (Model/C17axis.v; proofs in Proofs/C17gen.v) ---------------- *)
+
+(* get_PropagationMatrix, all three ways of reaching the start of the sub-axis (same start; a whole number Ns of sub-axis steps, Ns being
+   whatever round() returned; one extra exponential for the shift): if the oracle exponential ex(t) (= expm(K t)) is a one-parameter
+   semigroup, the matrix stored at point i of the sub-axis is the exponential for the time elapsed since the start of the
+   propagator's own axis, (sub_start - start) + i * sub_step *)
+Theorem c17_propagation_matrix_is_exponential_of_elapsed_time : forall (R : StarRing) n (ex : Q -> @mat R),
+  (forall s t, (s == t)%Q -> meq n (ex s) (ex t)) -> (forall s t, meq n (ex (s + t)%Q) (mmul n (ex s) (ex t))) -> meq n (ex 0%Q) mid ->
+  forall (start sub_start sub_step : Q) (Ns : Z) (i : nat), (0 < sub_step)%Q -> (start <= sub_start)%Q ->
+  meq n (prop_matrix_gen n (ex sub_step) (ex (pm_dt start sub_start)) (pm_shifted start sub_start)
+                         (pm_whole start sub_start sub_step Ns) (Z.to_nat Ns) i)
+        (ex (inject_Z (Z.of_nat i) * sub_step + (sub_start - start))%Q).
+Proof. intros R n ex H1 H2 H3. exact (prop_matrix_is_exponential n ex H1 H2 H3). Qed.
+Print Assumptions c17_propagation_matrix_is_exponential_of_elapsed_time.
+Example c17_semigroup_hypotheses_inhabited : forall (R : StarRing) n, exists ex : Q -> @mat R,
+  (forall s t, (s == t)%Q -> meq n (ex s) (ex t)) /\ (forall s t, meq n (ex (s + t)%Q) (mmul n (ex s) (ex t))) /\ meq n (ex 0%Q) mid.
+Proof.
+  intros R n. exists (fun _ => mid). split; [intros s t _ a b _ _; reflexivity|]. split; [|intros a b _ _; reflexivity].
+  intros s t a b Ha Hb. symmetry. now apply mmul_id_l.
+Qed.
+
+(* the constructor: a dimension alone gives the zero matrix (zero column sums, the starting point of c17_history_keeps_column_sums);
+   nothing given, a non-square matrix or a dimension that contradicts the data is refused *)
+Theorem c17_constructor : forall (R : StarRing) n,
+  (forall N, N <> 0%Z -> rm_ctor (Some N) None = CtorZeros N) /\ rm_ctor None None = CtorRaise /\ rm_ctor (Some 0%Z) None = CtorRaise /\
+  (forall dim r c, r <> c -> rm_ctor dim (Some (r, c)) = CtorRaise) /\ (forall r, rm_ctor None (Some (r, r)) = CtorData r) /\
+  (forall N r, N <> 0%Z -> N <> r -> rm_ctor (Some N) (Some (r, r)) = CtorRaise) /\
+  zero_colsums n (@zero_mat R).
+Proof.
+  intros R n. destruct rm_ctor_spec as [H1 [H2 [H3 [H4 [H5 H6]]]]].
+  split; [exact H1|]. split; [exact H2|]. split; [exact H3|]. split; [exact H4|]. split; [exact H5|]. split; [exact H6|exact (zero_mat_colsums n)].
+Qed.
+Print Assumptions c17_constructor.
